@@ -579,7 +579,9 @@ func (a *cbAnalysis) run(body *ast.BlockStmt, argsObj types.Object, extraEntry [
 	}
 
 	// pass 2: aliases and elements, to a fixpoint
-	iterOf := map[types.Object]ast.Expr{} // it := C.ElementIterator()
+	iterOf := map[types.Object]ast.Expr{}      // it := C.ElementIterator()
+	opResults := map[types.Object][]ast.Expr{} // x := a.Op(b): operands
+	isOpResult := map[string]bool{}
 	type assign struct {
 		lhs  types.Object
 		kind string // alias | unmark | elem | other
@@ -635,6 +637,13 @@ func (a *cbAnalysis) run(body *ast.BlockStmt, argsObj types.Object, extraEntry [
 					}
 					if cont, ok := elemCall(r); ok && len(x.Lhs) == 1 {
 						addAssign(x.Lhs[0], "elem", cont)
+						return true
+					}
+					if ops := opOperands(info, call); ops != nil && len(x.Lhs) == 1 {
+						if o := objOf(info, x.Lhs[0]); o != nil {
+							opResults[o] = ops
+							assigns = append(assigns, assign{o, "opresult", nil})
+						}
 						return true
 					}
 				}
@@ -756,6 +765,23 @@ func (a *cbAnalysis) run(body *ast.BlockStmt, argsObj types.Object, extraEntry [
 					} else {
 						all = false
 					}
+				case "opresult":
+					// the result of an operation method: carries the marks of its operands
+					anyRooted := false
+					for _, oe := range opResults[o] {
+						if sk := subjKey(info, oe); sk != "" {
+							if d, ok := rooted[sk]; ok {
+								anyRooted = true
+								desc = "result of an operation on " + d
+								aliasLinks[k] = append(aliasLinks[k], sk)
+							}
+						}
+					}
+					if !anyRooted {
+						all = false
+					} else {
+						isOpResult[k] = true
+					}
 				default:
 					all = false
 				}
@@ -814,6 +840,38 @@ func (a *cbAnalysis) run(body *ast.BlockStmt, argsObj types.Object, extraEntry [
 				if cont, ok := elemCall(r); ok && len(x.Lhs) == 1 {
 					if ck, vk := subjKey(info, cont), subjKey(info, x.Lhs[0]); ck != "" && vk != "" {
 						out = append(out, elemEffects(vk, ck)...)
+					}
+				}
+				if ops := opOperands(info, call); ops != nil && len(x.Lhs) == 1 {
+					if vk := subjKey(info, x.Lhs[0]); vk != "" {
+						var oks []string
+						for _, oe := range ops {
+							if sk := subjKey(info, oe); sk != "" {
+								oks = append(oks, sk)
+							}
+						}
+						out = append(out, Effect{Filter: func(sat func(Fact) bool) bool {
+							// the result is marked exactly when some operand is
+							all := true
+							for _, k := range oks {
+								if !sat(Fact{"unmarked", k}) {
+									all = false
+								}
+							}
+							if all {
+								return sat(Fact{"unmarked", vk})
+							}
+							anyMarked := false
+							for _, k := range oks {
+								if sat(Fact{"marked", k}) {
+									anyMarked = true
+								}
+							}
+							if anyMarked {
+								return sat(Fact{"marked", vk})
+							}
+							return true
+						}})
 					}
 				}
 			}
@@ -917,6 +975,10 @@ func (a *cbAnalysis) run(body *ast.BlockStmt, argsObj types.Object, extraEntry [
 		}
 		needKnown, needNotNull := req.Known, req.NotNull
 		if req.StructuralExempt && structural[sk] {
+			needKnown, needNotNull = false, false
+		}
+		if isOpResult[sk] {
+			// whether an operation result is known is a value question; its marks are those of the operands
 			needKnown, needNotNull = false, false
 		}
 		check("known", needKnown, Fact{"known", sk}, Fact{"unknown", sk})
@@ -1115,4 +1177,34 @@ func correlatedFlag(c *Ctx, info *types.Info, body *ast.BlockStmt, call ast.Node
 		return true
 	})
 	return name
+}
+
+// opOperands: the operands (receiver first) of a call of an operation method of cty.Value whose
+// result carries the union of its operands' marks; nil for anything else.
+func opOperands(info *types.Info, call *ast.CallExpr) []ast.Expr {
+	f := callee(info, call)
+	if f == nil {
+		return nil
+	}
+	k := funcKey(f)
+	if !strings.HasPrefix(k, "cty.Value.") {
+		return nil
+	}
+	switch strings.TrimPrefix(k, "cty.Value.") {
+	case "Equals", "NotEqual", "Add", "Subtract", "Negate", "Multiply", "Divide", "Modulo", "Absolute", "GetAttr", "Index", "HasIndex",
+		"HasElement", "Length", "Not", "And", "Or", "LessThan", "GreaterThan", "LessThanOrEqualTo", "GreaterThanOrEqualTo":
+	default:
+		return nil
+	}
+	se, ok := call.Fun.(*ast.SelectorExpr)
+	if !ok {
+		return nil
+	}
+	out := []ast.Expr{se.X}
+	for _, a := range call.Args {
+		if isCtyValue(info.TypeOf(a)) {
+			out = append(out, a)
+		}
+	}
+	return out
 }
